@@ -21,6 +21,8 @@ type ctx struct {
 	stats map[string]int
 	work  string
 	curID string
+	// measure: account allocations of the segment calls of this line (C11)
+	measure bool
 }
 
 func (c *ctx) emit(id, input, obs string) {
@@ -57,6 +59,14 @@ func main() {
 	}
 	if mode == "translate" {
 		fmt.Print(runTranslate(name))
+		return
+	}
+	if mode == "mkgolden" {
+		// wh mkgolden <dir>: (re)write the golden fixtures with the code in /repo
+		if err := mkGolden(name); err != nil {
+			fmt.Fprintln(os.Stderr, "mkgolden:", err)
+			os.Exit(1)
+		}
 		return
 	}
 	fs := flag.NewFlagSet(name, flag.ExitOnError)
